@@ -146,6 +146,7 @@ type c13Profile struct {
 	twoPools                                                                    bool
 	gas                                                                         int // out of 16: the transaction pays its commission in coin 1 through pool(0,1)
 	normalPool                                                                  int // out of 8: reserves of a "usual" magnitude and ratio
+	c14                                                                         bool // also apply the limit-order oracles of C14 (c14_test.go)
 }
 
 type c13Run struct {
@@ -173,6 +174,11 @@ type c13Run struct {
 	crossed    int
 	rounding   int
 	excluded   map[string]int
+
+	c14           bool // C14 oracles on
+	c14nontrivial bool
+	c14stats      map[string]int
+	partials      map[uint32]int // order id -> number of partial fills so far
 }
 
 func (r *c13Run) u(label string, n int) int { return sim.U(r.t, label, n) }
@@ -212,7 +218,7 @@ func (r *c13Run) call(what string, f func()) {
 }
 
 func c13NewRun(t *rapid.T, prof c13Profile) *c13Run {
-	r := &c13Run{t: t, prof: prof, byID: map[uint32]*c13Order{}, dep: map[types.CoinID]*big.Int{}, pay: map[types.CoinID]*big.Int{}, excluded: map[string]int{}}
+	r := &c13Run{t: t, prof: prof, c14: prof.c14, c14stats: map[string]int{}, partials: map[uint32]int{}, byID: map[uint32]*c13Order{}, dep: map[types.CoinID]*big.Int{}, pay: map[types.CoinID]*big.Int{}, excluded: map[string]int{}}
 	r.db = dbm.NewMemDB()
 	mt, err := tree.NewMutableTree(0, r.db, 1024, 0)
 	if err != nil {
@@ -236,6 +242,11 @@ func c13NewRun(t *rapid.T, prof c13Profile) *c13Run {
 		r.pools = append(r.pools, &c13Pool{a: 0, b: 2})
 	}
 	r.audit = r.u("audit", 2) == 0
+	if prof.c14 {
+		// the audit reads (GetOrder on every order after every operation) load orders into the pair's
+		// caches, which no transaction sequence does; C14 runs without them
+		r.audit = false
+	}
 	return r
 }
 
@@ -947,7 +958,7 @@ func (r *c13Run) tradeExec(p *c13Pool, inC, outC types.CoinID, buy bool, kind st
 			r.fail("c13-buy-above-maximum", "PairBuyWithOrders took %s, the check accepted with maximumValueToSell=%s (estimate %s)", paid, limit, est)
 		}
 	}
-	r.note("in=%s out=%s fills=%d", paid, got, len(details.Orders))
+	r.note("in=%s out=%s fills=%d%s", paid, got, len(details.Orders), c13FillList(details.Orders))
 	if est != nil && ((!buy && got.Cmp(est) != 0) || (buy && paid.Cmp(est) != 0)) {
 		sim.S.Label("C13/trade/estimate-differs-from-execution/" + kind)
 	}
@@ -967,6 +978,9 @@ func (r *c13Run) tradeExec(p *c13Pool, inC, outC types.CoinID, buy bool, kind st
 		r.fail("c13-product-decreased", "reserves %s/%s (product %s) -> %s/%s (product %s): trade in=%s out=%s with %d order fills", rIn, rOut, c13mul(rIn, rOut), rIn2, rOut2, c13mul(rIn2, rOut2), paid, got, len(details.Orders))
 	}
 
+	if r.c14 {
+		r.c14Fills(p, inC, outC, kind, details.Orders)
+	}
 	// order fills: nothing may come out of an order that it did not hold
 	fillBuy, fillSell := big.NewInt(0), big.NewInt(0)
 	perOwner := map[types.Address]*big.Int{}
@@ -1104,6 +1118,20 @@ func (r *c13Run) tradeExec(p *c13Pool, inC, outC types.CoinID, buy bool, kind st
 	if active || len(details.Orders) > 0 {
 		r.nontrivial = true
 	}
+}
+
+func c13FillList(fills []*swap.Limit) string {
+	if len(fills) == 0 {
+		return ""
+	}
+	s := " ["
+	for i, f := range fills {
+		if i > 0 {
+			s += " "
+		}
+		s += fmt.Sprintf("#%d:%s/%s", f.ID(), f.WantSell, f.WantBuy)
+	}
+	return s + "]"
 }
 
 // knownTradePanic reports the id of a known finding whose trigger class contains this trade.
@@ -1342,6 +1370,10 @@ func (r *c13Run) opRemoveOrder() {
 	if coin != o.sell || vol.Cmp(o.wantSell) != 0 {
 		r.fail("c13-remove-wrong-amount", "order %d holds %s of coin %d, PairRemoveLimitOrder returned %s of coin %d", id, o.wantSell, o.sell, vol, coin)
 	}
+	if r.partials[o.id] > 0 {
+		r.c14nontrivial = true
+		r.c14stats["cancel-after-partial-fill"]++
+	}
 	o.open, o.wantBuy, o.wantSell = false, big.NewInt(0), big.NewInt(0)
 	r.pay[coin].Add(r.pay[coin], vol)
 	r.checkerAgainst("removeOrder", map[types.CoinID]*big.Int{coin: new(big.Int).Neg(vol)})
@@ -1389,8 +1421,14 @@ func (r *c13Run) opExpire() {
 	want := map[types.CoinID]map[types.Address]*big.Int{}
 	wantTotal := map[types.CoinID]*big.Int{}
 	n := 0
+	var c14exp []c14Expect
 	for _, o := range r.orders {
 		if o.open && o.height <= before {
+			c14exp = append(c14exp, c14Expect{o.id, o.owner, o.sell, c13cp(o.wantSell)})
+			if r.partials[o.id] > 0 {
+				r.c14nontrivial = true
+				r.c14stats["expire-after-partial-fill"]++
+			}
 			if want[o.sell] == nil {
 				want[o.sell], wantTotal[o.sell] = map[types.Address]*big.Int{}, big.NewInt(0)
 			}
@@ -1406,6 +1444,9 @@ func (r *c13Run) opExpire() {
 	r.resetBus()
 	r.call("ExpireOrders", func() { r.sw.ExpireOrders(before) })
 	r.note("%d orders expire", n)
+	if r.c14 {
+		r.c14Events("expireOrders", c14exp)
+	}
 	neg := map[types.CoinID]*big.Int{}
 	for _, c := range []types.CoinID{0, 1, 2} {
 		total, per := r.credits(c)
@@ -1556,6 +1597,20 @@ func c13RunCase(t *rapid.T, prof c13Profile, test string) {
 	sort.Strings(ids)
 	for _, id := range ids {
 		sim.S.Exclude(id, r.excluded[id])
+	}
+	if r.c14 {
+		keys := make([]string, 0, len(r.c14stats))
+		for k := range r.c14stats {
+			keys = append(keys, k)
+		}
+		sort.Strings(keys)
+		for _, k := range keys {
+			sim.S.LabelN("C14/"+k, r.c14stats[k])
+		}
+		sim.S.Case(test, r.c14nontrivial, sim.HashStrings(r.steps), func() interface{} {
+			return map[string]interface{}{"operations": sim.HistorySample(r.steps, 30), "stats": r.c14stats}
+		})
+		return
 	}
 	sim.S.Case(test, r.nontrivial, sim.HashStrings(r.steps), func() interface{} {
 		return map[string]interface{}{"operations": sim.HistorySample(r.steps, 25), "trades_with_rounding": r.rounding, "trades_crossing_orders": r.crossed}
